@@ -80,6 +80,13 @@ def law_cases():
                 "<*_str_ = fn(self) 5*>", "<*_str_ = fn() 'x'*>", "<*_str_ = fn(self) 'nice'*>", "[<*_str_ = fn(self) error 'inner'*>]",
                 "<<<'k' => <*_str_ = fn(self) error 'inner'*>>>>", "'" + "x" * 200 + "'", "[" + ", ".join(str(i) for i in range(60)) + "]", "fn(q) q", "stdout"]
     for a in odd_args:
+        # the odd value itself as the error value: it reaches the handler that names it (by value), unchanged
+        if not a.startswith(("'", "[0", "fn(")) and a != "stdout":
+            cases += [
+                (f"def o = {a}; do error o catch o 'caught it' catch all 'other' end", ('text', "'caught it'")),
+                (f"def o = {a}; def f() error o; do do f() catch 'nomatch' 0 end catch o 'outer' catch all 'other' end", ('text', "'outer'")),
+                (f"def o = {a}; def log = []; do do error o finally append(log, 'fin') end catch o append(log, 'h') end; log", ('text', "['fin', 'h']")),
+            ]
         cases += [
             (f"def o = {a}; def f(x) error 'orig'; do f(o) catch 'orig' 'caught orig' catch all 'caught other' end", ('text', "'caught orig'")),
             (f"def o = {a}; def f(x) 1 / 0; do f(o) catch 'ERROR' 'caught runtime' catch all 'caught other' end", ('text', "'caught runtime'")),
